@@ -6,6 +6,7 @@ schedule starts at the finish time of the previous one — `compositeSchedule.st
 -/
 import Pandora.Bridge.Schedule
 import Pandora.Model.C12
+import Pandora.Spec.C12
 
 namespace Pandora.Proofs.C12Shape
 open Pandora Pandora.Gen.Schedule Pandora.Bridge.Schedule
@@ -67,5 +68,106 @@ theorem instanceStep_toks (f t s d : ℤ) :
     split <;> simp
   · simp only
     split <;> simp
+
+/-- the same, started at any instant -/
+theorem instanceStep_toks_at (f t s d s0 : ℤ) :
+    toks (NewInstanceStep f t s d) s0 =
+      ((Model.C12.instanceStepToks f t s d).map (· + s0), s0 + Model.C12.instanceStepDur f t s d) := by
+  rw [NewInstanceStep_eq]
+  simp only [toks, toksList, toks_once, toksList_steps, loop_length]
+  unfold Model.C12.instanceStepToks Model.C12.instanceStepDur Model.C12.stepCount
+  refine Prod.ext ?_ ?_
+  · simp only [List.map_append, List.map_replicate, List.map_flatMap]
+    congr 1
+    · simp
+    · split
+      · apply List.flatMap_congr
+        intro m _
+        congr 1
+        ring
+      · simp
+  · split <;> simp
+
+theorem f2i_intCast (z : ℤ) : Go.f2i (z : ℝ) = z := by
+  unfold Go.f2i
+  split <;> simp
+
+/-- `const` with a whole number of operations per second that divides 10⁹, for a whole number of seconds: every float64
+operation of `NewConst` is exact, it emits ops·seconds tokens, token i at i·(10⁹/ops), and finishes after the duration -/
+theorem toks_const_exact (k q S s0 : ℤ) (hk : 0 < k) (hq : k * q = 1000000000) :
+    toks (NewConst (k : ℝ) (S * 1000000000)) s0 =
+      ((List.range (k * S).toNat).map (fun (i : ℕ) => s0 + (i : ℤ) * q), s0 + S * 1000000000) := by
+  have hk0 : (0 : ℝ) ≤ (k : ℝ) := by exact_mod_cast hk.le
+  have hkne : (k : ℝ) ≠ 0 := by exact_mod_cast hk.ne'
+  rw [NewConst_eq (k : ℝ) _ hk0]
+  have hn : (k : ℝ) * secs (S * 1000000000) = ((k * S : ℤ) : ℝ) := by
+    unfold secs; push_cast; field_simp
+  have hq' : (1000000000 : ℝ) / (k : ℝ) = (q : ℝ) := by
+    rw [div_eq_iff hkne]
+    have : ((k * q : ℤ) : ℝ) = 1000000000 := by exact_mod_cast congrArg (fun z : ℤ => (z : ℝ)) hq
+    push_cast at this
+    linarith
+  simp only [toks, hn, f2i_intCast, hq']
+  refine Prod.ext ?_ rfl
+  simp only
+  apply List.map_congr_left
+  intro i _
+  have : ((i : ℤ) : ℝ) * (q : ℝ) = (((i : ℤ) * q : ℤ) : ℝ) := by push_cast; ring
+  rw [this, f2i_intCast]
+
+/-- the regenerated schedule a part of a startup profile of the harness denotes -/
+noncomputable def schedOf : Spec.C12.Part → Sched
+  | .once n => NewOnce n
+  | .const ops ms => NewConst (ops : ℝ) (ms * 1000000)
+  | .step f t st ms => NewInstanceStep f t st (ms * 1000000)
+
+/-- The token times the Spec computes for a startup profile (and compares with the real schedule on every case) are
+those of the composite of the REGENERATED constructors, wherever the Spec computes them at all. -/
+theorem partsToks_eq (ps : List Spec.C12.Part) (s0 : ℤ) (l : List ℤ) (h : Spec.C12.partsToks ps s0 = some l) :
+    l = (toksList (ps.map schedOf) s0).1 := by
+  induction ps generalizing s0 l with
+  | nil =>
+    simp only [Spec.C12.partsToks, Option.some.injEq] at h
+    simp [toksList, ← h]
+  | cons p ps ih =>
+    cases p with
+    | once n =>
+      simp only [Spec.C12.partsToks, Option.map_eq_some_iff] at h
+      obtain ⟨l', hl', rfl⟩ := h
+      simp only [List.map_cons, toksList, schedOf, toks_once]
+      rw [ih _ _ hl']
+    | const ops ms =>
+      simp only [Spec.C12.partsToks] at h
+      by_cases h0 : ops ≤ 0
+      · simp only [h0, if_true] at h
+        have hz : NewConst (ops : ℝ) (ms * 1000000) = NewConst 0 (ms * 1000000) := by
+          unfold NewConst
+          have hle : (ops : ℝ) ≤ 0 := by exact_mod_cast h0
+          rcases lt_or_eq_of_le hle with hlt | heq
+          · simp [hlt]
+          · simp [heq]
+        simp only [List.map_cons, toksList, schedOf, hz, toks_const0, List.nil_append]
+        exact ih _ _ h
+      · simp only [h0, if_false] at h
+        by_cases hex : (1000000000 % ops == 0 && ms % 1000 == 0) = true
+        · simp only [hex, if_true, Option.map_eq_some_iff] at h
+          obtain ⟨l', hl', rfl⟩ := h
+          simp only [Bool.and_eq_true, beq_iff_eq] at hex
+          have hk : 0 < ops := by omega
+          have hq : ops * (1000000000 / ops) = 1000000000 := Int.mul_ediv_cancel' (Int.dvd_of_emod_eq_zero hex.1)
+          have hS : ms * 1000000 = (ms / 1000) * 1000000000 := by
+            have := Int.mul_ediv_cancel' (Int.dvd_of_emod_eq_zero hex.2)
+            omega
+          have hih := ih _ _ hl'
+          rw [hS] at hih
+          simp only [List.map_cons, toksList, schedOf, hS, toks_const_exact ops _ (ms / 1000) s0 hk hq]
+          rw [hih]
+        · simp [hex] at h
+    | step f t st ms =>
+      simp only [Spec.C12.partsToks, Option.map_eq_some_iff] at h
+      obtain ⟨l', hl', rfl⟩ := h
+      have hih := ih _ _ hl'
+      simp only [List.map_cons, toksList, schedOf, instanceStep_toks_at]
+      rw [hih]
 
 end Pandora.Proofs.C12Shape
